@@ -1512,6 +1512,8 @@ fn vp_native_connect_refusals_body() {
                  b"garbage\r\n\r\n", b"HTTP/1.1 abc OK\r\n\r\n", b"\r\n\r\n",
                  // a 2xx status line followed by lines that are not header fields (no colon): not a response head
                  b"HTTP/1.1 200 OK\r\ngarbage\r\n\r\n", b"HTTP/1.1 200 OK\r\nHTTP/1.1 403 Forbidden\r\nContent-Length: 0\r\n\r\n", b"HTTP/1.1 200 Connection established\r\nX: y\r\nno colon here\r\n\r\n", b"HTTP/1.1 204 OK\r\n<html>\r\n\r\n",
+                 // ... or lines of blanks only, which are not the empty line that ends a head
+                 b"HTTP/1.1 200 OK\r\n   \r\n", b"HTTP/1.1 200 OK\r\n \r\nX: y\r\n\r\n", b"HTTP/1.1 200 OK\r\nX: y\r\n\t\r\n", b"HTTP/1.1 200 OK\r\nX: y\r\n  \r\n",
                  // status tokens that are not three digits: not a status, so not an agreement to tunnel
                  b"HTTP/1.1 +200 OK\r\n\r\n", b"HTTP/1.1 0200 OK\r\n\r\n", b"HTTP/1.1 000204 OK\r\n\r\n", b"HTTP/1.1 20 OK\r\n\r\n", b"HTTP/1.1 2000 OK\r\n\r\n", b"HTTP/1.1 -200 OK\r\n\r\n", b"HTTP/1.1 2e2 OK\r\n\r\n", b"HTTP/1.1 0403 Forbidden\r\n\r\n"] {
         let log = Arc::new(Mutex::new(Vec::new()));
